@@ -78,6 +78,18 @@ is never empty (table fact used by the value-reader progress lemma) -/
 theorem gen_numStart_isNum : (List.range 256).all (fun n => !isNumStart (UInt8.ofNat n) || genCM.isNum (UInt8.ofNat n)) = true := by
   decide +kernel
 
+/-- … lifted from the 256-entry table check to every byte -/
+theorem gen_numStart_isNum_all (b : UInt8) (h : isNumStart b = true) : genCM.isNum b = true := by
+  have hall := List.all_eq_true.mp gen_numStart_isNum b.toNat (List.mem_range.mpr b.toNat_lt)
+  have hb : UInt8.ofNat b.toNat = b := UInt8.ofNat_toNat
+  rw [hb] at hall
+  simpa [h] using hall
+
+/-- **C03 for `ParseValue` on the tables of this run**: it returns for every byte string and reader ending -/
+theorem C03_parseValue_total_current (bytes : List UInt8) (tail : Tail) :
+    (parseValue genCM bytes tail).2.oof = false :=
+  C03_parseValue_total genCM gen_numStart_isNum_all bytes tail
+
 /-- white space is never a token character (so a token ends at the first blank) -/
 theorem gen_space_not_token : (List.range 256).all (fun n => !(genCM.isSpace (UInt8.ofNat n) && genCM.isToken (UInt8.ofNat n))) = true := by
   decide +kernel
